@@ -1148,7 +1148,9 @@ class MixturePrior:
         Calculate prior grid for a set of timepoints and a population size history
         """
 
-        if isinstance(population_size, (int, float, np.ndarray)):
+        if isinstance(population_size, dict):
+            population_size = demography.PopulationSizeHistory(**population_size)
+        elif isinstance(population_size, (int, float, np.ndarray)):
             population_size = demography.PopulationSizeHistory(population_size)
 
         if isinstance(timepoints, int):
@@ -1195,7 +1197,9 @@ class MixturePrior:
         if self.prior_distribution != "gamma":
             raise ValueError("Parameter grid may only be calculated with gamma priors")
 
-        if isinstance(population_size, (int, float, np.ndarray)):
+        if isinstance(population_size, dict):
+            population_size = demography.PopulationSizeHistory(**population_size)
+        elif isinstance(population_size, (int, float, np.ndarray)):
             population_size = demography.PopulationSizeHistory(population_size)
 
         ts = self.tree_sequence
